@@ -7,9 +7,15 @@
 //                                         (and, for rings that do not cross, vs the exact containment reference)
 //   c05 pair-rule <seed> <n> <outbase>    the real PolygonIntersectionAnalyzer::processIntersections (findInvalidIntersection) on one pair of
 //                                         ring segments, both flag settings, vs the Lean copy (proved equal to the reference's rule)
+//   c05 nested-tester <seed> <n> <outbase>  the real IndexedNestedPolygonTester (isNested / getNestedPoint) on integer MultiPolygons vs the Lean copy
+//   c05 self-node <seed> <n> <outbase>    the real PolygonIntersectionAnalyzer (flag on) shown the segment pairs of ONE ring in random order, then
+//                                         PolygonRing::findInteriorSelfNode, vs the Lean copy (recorded code and interior self node)
 //   c05 replay <file>     lines: "V | <geom tokens> | ..."  or bare "<srid> <geom tokens>"  or "W <wkt>"
 #include "validgen.h"
 #include "c05touch.h"
+#include "c05nest.h"
+#include <geos/operation/valid/IndexedNestedPolygonTester.h>
+#include <geos/geom/MultiPolygon.h>
 #include <geos/algorithm/PolygonNodeTopology.h>
 #include <geos/operation/valid/PolygonTopologyAnalyzer.h>
 #include <geos/operation/valid/PolygonIntersectionAnalyzer.h>
@@ -112,10 +118,70 @@ int main(int argc, char** argv) {
             out.count(cr ? "crossing_1" : "crossing_0"); out.count("cmp_" + std::to_string(c01));
             out.emit(c, std::to_string(c01) + " " + std::to_string(cb) + " " + (cr ? "1" : "0") + " " + (i0 ? "1" : "0") + " " + (i1 ? "1" : "0")); }
         GEOS_finish_r(h); return 0; }
-    ValidGen gen(r, h, &out); TouchGen touch(r, &out);
+    ValidGen gen(r, h, &out); TouchGen touch(r, &out); NestGen nest(r, &out, touch); FlowerGen flowers(r, &out, touch);
+    typedef TouchGen::Ring Ring;
+    auto ptsLine = [](const Ring& g) { std::string s; for (auto& p : g) s += " " + std::to_string((long) p.x) + " " + std::to_string((long) p.y); return s; };
+    auto intRing = [](const Ring& g) { if (g.size() < 4 || !hpEq(g.front(), g.back())) return false; bool distinct = false;
+        for (auto& p : g) { if (!std::isfinite(p.x) || !std::isfinite(p.y) || p.x != std::floor(p.x) || p.y != std::floor(p.y) || std::fabs(p.x) > 1e6 || std::fabs(p.y) > 1e6) return false; if (!hpEq(p, g[0])) distinct = true; } return distinct; };
+    if (stream == "nested-tester") {
+        using geos::operation::valid::IndexedNestedPolygonTester;
+        long emitted = 0, guard = 0;
+        while (emitted < n && guard++ < 50 * n + 1000) {
+            HGeo g; std::string fam; int pick = (int) r.below(100);
+            try {
+                if (pick < 55) g = nest.dwellers(fam);
+                else if (pick < 80) g = touch.comb(fam);
+                else if (pick < 88) { g = touch.contactMultiPolygon(gen); fam = "rand_contact_multipolygon"; }
+                else if (pick < 94) g = flowers.flower(fam);
+                else g = gen.generate(fam);
+            } catch (...) { continue; }
+            if (g.type != 6 || g.kids.size() < 2) continue;
+            bool ok = true; for (auto& k : g.kids) { if (k.type != 3 || k.seqs.empty()) { ok = false; break; } for (auto& q : k.seqs) if (!intRing(q)) ok = false; } if (!ok) continue;
+            { Xform t; t.sym = (int) r.below(8); if (r.chance(50)) { t.tx = r.range(-100, 100); t.ty = r.range(-100, 100); } applyX(g, t); }
+            std::string c = "T |"; for (size_t i = 0; i < g.kids.size(); i++) { if (i) c += " /"; for (size_t j = 0; j < g.kids[i].seqs.size(); j++) { if (j) c += " ;"; c += ptsLine(g.kids[i].seqs[j]); } }
+            std::string res;
+            try { auto geom = buildH(g, gf); IndexedNestedPolygonTester t(static_cast<const geos::geom::MultiPolygon*>(geom.get()));
+                if (t.isNested()) { auto& q = t.getNestedPoint(); res = "1 " + std::to_string((long) q.x) + " " + std::to_string((long) q.y); } else res = "0"; }
+            catch (std::exception&) { res = "X"; }
+            out.count("family_" + fam.substr(0, fam.find('+'))); out.count("nested_" + res.substr(0, 1)); out.count("elements_" + std::to_string(std::min<size_t>(g.kids.size(), 5)));
+            out.emit(c + " | " + res, "ok"); emitted++; }
+        GEOS_finish_r(h); return 0; }
+    if (stream == "self-node") {
+        using namespace geos::operation::valid; using geos::noding::BasicSegmentString;
+        long emitted = 0, guard = 0;
+        while (emitted < n && guard++ < 50 * n + 1000) {
+            Ring a; std::string fam; int pick = (int) r.below(100);
+            try {
+                HGeo g; if (pick < 70) g = flowers.flower(fam); else g = gen.generate(fam);
+                std::vector<Ring*> rs; eachSeq(g, [&](std::vector<HP>& q, bool ring, int) { if (ring) rs.push_back(&q); }); if (rs.empty()) continue;
+                if (pick < 70) { a = *rs[0]; for (auto* q : rs) if (q->size() > a.size()) a = *q; fam = "flower"; } else { a = *rs[r.below(rs.size())]; fam = "template_or_random"; }
+            } catch (...) { continue; }
+            { Ring o; for (auto& p : a) if (o.empty() || !hpEq(o.back(), p)) o.push_back(p); a = o; }
+            if (!intRing(a)) continue;
+            { HGeo tmp; tmp.type = 1; Xform t; t.sym = (int) r.below(8); if (r.chance(50)) { t.tx = r.range(-100, 100); t.ty = r.range(-100, 100); } tmp.seqs = {a}; applyX(tmp, t); a = tmp.seqs[0]; }
+            bool isShell = r.chance(60);
+            auto cs = csOf(a); auto lr = gf->createLinearRing(csOf(a));
+            Ring bb = TouchGen::closed({{-1e5, -1e5}, {1e5, -1e5}, {1e5, 1e5}, {-1e5, 1e5}}); auto lrBig = gf->createLinearRing(csOf(bb));
+            PolygonRing shellPR(lrBig.get()); std::unique_ptr<PolygonRing> pr(isShell ? new PolygonRing(lr.get()) : new PolygonRing(lr.get(), 0, &shellPR));
+            BasicSegmentString ss(cs.get(), pr.get());
+            size_t na = a.size() - 1; std::vector<std::pair<size_t, size_t>> cand;
+            for (size_t i = 0; i < na; i++) for (size_t j = i + 1; j < na; j++) {
+                double ax0 = std::min(a[i].x, a[i + 1].x), ax1 = std::max(a[i].x, a[i + 1].x), ay0 = std::min(a[i].y, a[i + 1].y), ay1 = std::max(a[i].y, a[i + 1].y);
+                double bx0 = std::min(a[j].x, a[j + 1].x), bx1 = std::max(a[j].x, a[j + 1].x), by0 = std::min(a[j].y, a[j + 1].y), by1 = std::max(a[j].y, a[j + 1].y);
+                bool meet = ax0 <= bx1 && bx0 <= ax1 && ay0 <= by1 && by0 <= ay1; if (meet || r.chance(3)) cand.push_back(r.chance(50) ? std::make_pair(i, j) : std::make_pair(j, i)); }
+            for (size_t k = cand.size(); k > 1; k--) std::swap(cand[k - 1], cand[r.below(k)]);
+            if (r.chance(10) && !cand.empty()) cand.push_back(cand[r.below(cand.size())]);      // the noder may present a pair more than once
+            std::string res, pl; bool hasNode = false;
+            try { PolygonIntersectionAnalyzer an(true);
+                for (auto& ij : cand) { an.processIntersections(&ss, ij.first, &ss, ij.second); pl += " " + std::to_string(ij.first) + " " + std::to_string(ij.second); }
+                const geos::geom::CoordinateXY* nd = pr->findInteriorSelfNode(); hasNode = nd != nullptr;
+                res = std::to_string(an.getInvalidCode()) + " " + (nd ? std::to_string((long) nd->x) + " " + std::to_string((long) nd->y) : std::string("-")); }
+            catch (std::exception&) { res = "X"; }
+            out.count("family_" + fam); out.count(std::string("interior_self_node_") + (hasNode ? "1" : "0")); out.count(isShell ? "as_shell" : "as_hole"); out.count("code_" + res.substr(0, res.find(' ')));
+            out.emit(std::string("S ") + (isShell ? "1" : "0") + " |" + ptsLine(a) + " |" + pl, res); emitted++; }
+        GEOS_finish_r(h); return 0; }
     if (stream == "pair-rule") {
         using namespace geos::operation::valid; using geos::noding::BasicSegmentString;
-        typedef TouchGen::Ring Ring;
         auto line = [](const Ring& g) { std::string s; for (auto& p : g) s += " " + std::to_string((long) p.x) + " " + std::to_string((long) p.y); return s; };
         auto dedupR = [](Ring& g) { Ring o; for (auto& p : g) if (o.empty() || !hpEq(o.back(), p)) o.push_back(p); g = o; };
         auto okRing = [](const Ring& g) { if (g.size() < 4 || !hpEq(g.front(), g.back())) return false; for (auto& p : g) if (!std::isfinite(p.x) || !std::isfinite(p.y) || p.x != std::floor(p.x) || p.y != std::floor(p.y) || std::fabs(p.x) > 1e6 || std::fabs(p.y) > 1e6) return false; return true; };
@@ -152,7 +218,6 @@ int main(int argc, char** argv) {
         GEOS_finish_r(h); return 0; }
     if (stream == "ring-nested") {
         using geos::operation::valid::PolygonTopologyAnalyzer;
-        typedef TouchGen::Ring Ring;
         auto line = [](const Ring& g) { std::string s; for (auto& p : g) s += " " + std::to_string((long) p.x) + " " + std::to_string((long) p.y); return s; };
         for (long i = 0; i < n; i++) {
             Ring test, target; std::string fam;
@@ -186,8 +251,10 @@ int main(int argc, char** argv) {
         std::string family; HGeo hg;
         try {
             int pick = (int) r.below(100);
-            if (pick < 22) { hg = touch.comb(family); if (r.chance(10) && gen.mutateContact(hg)) family += "+contact"; }
-            else if (pick < 26) { hg = touch.contactMultiPolygon(gen); family = "rand_contact_multipolygon"; }
+            if (pick < 20) { hg = touch.comb(family); if (r.chance(10) && gen.mutateContact(hg)) family += "+contact"; }
+            else if (pick < 24) { hg = touch.contactMultiPolygon(gen); family = "rand_contact_multipolygon"; }
+            else if (pick < 34) { hg = nest.dwellers(family); if (r.chance(8) && gen.mutateContact(hg)) family += "+contact"; }
+            else if (pick < 44) { hg = flowers.flower(family); if (r.chance(8) && gen.mutateContact(hg)) family += "+contact"; }
             else hg = gen.generate(family);
         } catch (std::exception& e) { out.count("generator_error"); continue; }
         Xform t = gen.gg.xform(); if (r.chance(40)) { t = Xform{}; t.sym = (int) r.below(8); }
@@ -199,6 +266,7 @@ int main(int argc, char** argv) {
         { FILE* cf = std::fopen((std::string(argv[4]) + ".current").c_str(), "w"); if (cf) { std::fprintf(cf, "%s\n", toks.c_str()); std::fclose(cf); } }
         std::string obs = observeAll(h, gf, hg, g.get(), r, &out);
         if (family.rfind("touch_", 0) == 0) out.count(std::string("touchfamily_") + (family.find("+contact") != std::string::npos ? "mutated" : family.substr(family.size() - 5)) + (obs.rfind("v0=1", 0) == 0 ? "_valid" : "_invalid"));
+        if (family.rfind("dwell_", 0) == 0 || family.rfind("flower_", 0) == 0) out.count("newfamily_" + family.substr(0, family.find('+')) + (obs.rfind("v0=1", 0) == 0 ? "_valid0" : "_invalid0") + (obs.find(" v1=1") != std::string::npos ? "_valid1" : "_invalid1"));
         out.emit("V | " + toks + " | " + obs, "ok");
     }
     GEOS_finish_r(h); return 0;
